@@ -1222,7 +1222,8 @@ class VM:
                 "includes",
                 "sort",
             ]
-            if key_str in array_methods:
+            if key_str in array_methods and not self._has_own_property(obj, key_str):
+                # (a property of the same name put on the array itself wins)
                 # The method acts on the array it is *called on*: that is obj
                 # for arr.m(...), but the explicit receiver for
                 # Array.prototype.m.call(other, ...) / apply / bind.
